@@ -1,10 +1,14 @@
 import Zog.Props.FactsOK
 import Zog.Laws
+import Zog.Exact
 
 /-!
 # C02 — every violation is reported exactly once, where it occurred, and nothing else
 `Spec` is the executable definition of "exactly the violations"; the theorems below state what it
 reports node by node, and `engine_is_spec` carries them to the mechanism model for all visit orders.
+`no_issue_iff_no_violation` is the whole-tree statement: the declarative predicate `NoViol`
+(written without mentioning issues — Zog/Exact.lean) holds iff no issue is recorded, so a violation
+anywhere in the tree is reported and a clean tree reports nothing.
 -/
 
 namespace Zog.Props.C02
@@ -83,6 +87,59 @@ theorem nil_iff_no_issue (sink : List Issue) : toIssueMap sink = [] ↔ sink = [
       simp only [IssueMap.append, List.isEmpty_nil, ↓reduceIte]
       split <;> simp
   · intro h; subst h; rfl
+
+/-- **The result is nil iff there is no violation — at every depth.** For every PostTransform-free
+    schema whose struct fields sit on distinct Go fields, every input, destination, mode and visit
+    order: the execution records no issue iff nothing is wrong at any node (`NoViol`: present or
+    allowed to be absent, coercible, every declared test holding, Catch swallowing only its own
+    node's failures). Soundness and completeness of the reported issues in one statement. -/
+theorem no_issue_iff_no_violation_spec (env : Env) (m : Mode) (s : Schema) (hp : s.postFree = true) (hw : s.WF)
+    (tag : Option String) (v : Val) (d : DVal) :
+    (Spec.run env m s tag v d).2.sink = [] ↔ NoViol env m s tag [] v d :=
+  clean_iff env m s hp hw tag [] v d
+
+/-- the same for the mechanism model under the regenerated code facts, and for the map the caller
+    receives -/
+theorem no_issue_iff_no_violation (env : Env) (m : Mode) (s : Schema) (hp : s.postFree = true) (hw : s.WF)
+    (tag : Option String) (v : Val) (d : DVal) :
+    toIssueMap (Engine.run env Gen.facts m s tag v d).2.sink = [] ↔ NoViol env m s tag [] v d := by
+  rw [nil_iff_no_issue, engine_is_spec]
+  exact clean_iff env m s hp hw tag [] v d
+
+/-- a violation anywhere ⇒ at least one issue (contrapositive reading) -/
+theorem violation_is_reported (env : Env) (m : Mode) (s : Schema) (hp : s.postFree = true) (hw : s.WF)
+    (tag : Option String) (v : Val) (d : DVal) (h : ¬ NoViol env m s tag [] v d) :
+    (Engine.run env Gen.facts m s tag v d).2.sink ≠ [] := by
+  intro hs
+  rw [engine_is_spec] at hs
+  exact h ((clean_iff env m s hp hw tag [] v d).mp hs)
+
+/-- what `NoViol` says at a primitive node, read back: absent ⇒ Default tested / not required;
+    present ⇒ coercible and every test holds; or the node has a Catch -/
+theorem no_violation_at_prim (m : Mode) (p : Prim) (v : Val) (d : DVal) (hc : p.ctch = none) (env : Env) (tag : Option String) (path : List String) :
+    NoViol env m (.prim p) tag path v d ↔
+      (if Engine.primAbsent m v d = true then
+        (match p.dflt with
+          | some x => p.tests.all (fun t => t.pred x) = true
+          | none => p.required = none)
+       else
+        (match m with
+          | .validate => p.tests.all (fun t => t.pred d) = true
+          | .parse => ∃ x, p.coerce v = some x ∧ p.tests.all (fun t => t.pred x) = true)) := by
+  cases hab : Engine.primAbsent m v d <;> cases hd : p.dflt <;> cases m <;> simp [NoViol, PrimOK, hc, hab, hd]
+
+/-- non-vacuity, both ways: a two-test string node on a passing and on a failing input -/
+example :
+    let t1 : Test := { id := 1, code := "min", pred := fun d => match d with | .str s => decide (s.length ≥ 2) | _ => false }
+    let p : Prim := { kind := .str, tests := [t1], coerce := fun v => match v with | .str s => some (.str s) | _ => none }
+    let env : Env := { fmt := fun _ _ _ => "m", ω := fun _ => [] }
+    NoViol env .parse (.prim p) none [] (.str "ab") (.str "") ∧ ¬ NoViol env .parse (.prim p) none [] (.str "a") (.str "") := by
+  intro t1 p env
+  constructor
+  · simp [NoViol, PrimOK, Engine.primAbsent, isParseZero, isBlank, p, t1]
+    decide
+  · simp [NoViol, PrimOK, Engine.primAbsent, isParseZero, isBlank, p, t1]
+    decide
 
 /-- the mechanism model reports exactly what the reference semantics reports, for every schema,
     input, destination, mode and field visit order -/
